@@ -419,6 +419,14 @@ func (x *Exec) writePath(cur Val, path []pathElem, v Val) Val {
 				}
 			} else if bv, isBV := nv.(*BufVal); isBV && want == SBytes && x.curState != nil {
 				nt = x.bufBytes(x.curState, bv)
+			} else if mr, isMR := nv.(*MapRef); isMR && want != nil && isMapSort(want) && x.curState != nil {
+				// a Go map stored into a struct term: its current content (later updates through the map are not seen by the copy)
+				if mt, ok := x.curState.mem[mr.Obj].(*Term); ok && mt.Sort == want {
+					nt = mt
+				} else {
+					x.errorf("storing map of unexpected sort into term struct")
+					return c
+				}
 			} else if gs, isGS := nv.(*GoSlice); isGS && want != nil && isSliceSort(want) {
 				// a Go slice value with term elements stored into a struct term: build the slice term
 				es := want.Fields[1].Sort.Elem
